@@ -43,6 +43,8 @@ ArchiveRule(e) ==
   ELSE IF SettingsRule(e.rec, sc.requested) # "ok" THEN SettingsRule(e.rec, sc.requested)
   ELSE IF ~e.reader.ok THEN "C11 READER: bitar cannot open the archive it wrote"
   ELSE IF ReaderRule(e.rec, e.reader) # "ok" THEN ReaderRule(e.rec, e.reader)
+  ELSE IF "info" \in DOMAIN e /\ e.info_exit # 0 THEN "C11 READER: bita info fails on the archive"
+  ELSE IF "info" \in DOMAIN e /\ InfoRule(e.rec, e.info) # "ok" THEN InfoRule(e.rec, e.info)
   ELSE IF e.rec.total # sc.src_len \/ e.rec.src_sum # sc.src_sum THEN "C01 DESCRIBES: recorded source size / checksum is not the source's"
   ELSE IF ~AllTrue(e.slice_ok) THEN "C01 DESCRIBES: a rebuild entry's chunk hash does not match the source slice it stands for"
   ELSE IF ~AllTrue(e.stored_ok) THEN "C01 DESCRIBES: a stored chunk does not decode to the chunk its descriptor names"
